@@ -148,6 +148,8 @@ func (c *vconc) val(t vtok) any {
 		return t.V == 1
 	case "int":
 		switch c.mode {
+		case "big53":
+			return (1 << 53) + t.V // neighbours of 2^53: distinct ints that collapse as float64
 		case "scale":
 			return t.V << c.shift
 		case "extreme":
@@ -1048,4 +1050,350 @@ func min(a, b int) int {
 
 func init() {
 	extraCmds["views"] = cmdViews
+}
+
+// ---- viewtrace: the view / sort / aggregate methods on LARGE lists, recorded for spec/ViewsTrace.tla ----------
+
+func (c *vconc) abs(x any) vtok {
+	switch v := x.(type) {
+	case nil:
+		return vtok{"nil", 0}
+	case bool:
+		if v {
+			return vtok{"bool", 1}
+		}
+		return vtok{"bool", 0}
+	case int:
+		if c.mode == "big53" {
+			return vtok{"int", v - (1 << 53)}
+		}
+		for k, e := range c.intExt {
+			if e == v {
+				return vtok{"int", k}
+			}
+		}
+		return vtok{"int", v}
+	case float64:
+		for k, e := range c.fltExt {
+			if e == v {
+				return vtok{"float", k}
+			}
+		}
+		return vtok{"float", int(v * 4)}
+	case string:
+		for i, s := range c.strs {
+			if s == v {
+				return vtok{"str", i}
+			}
+		}
+		return vtok{"str", -1}
+	case at.Object:
+		for k, o := range c.objs {
+			if o == v {
+				return vtok{"O", k}
+			}
+		}
+		return vtok{"O", -1}
+	case at.List:
+		for k, l := range c.lists {
+			if l == v {
+				return vtok{"L", k}
+			}
+		}
+		return vtok{"L", -1}
+	}
+	return vtok{"alien", 0}
+}
+
+func (c *vconc) absAll(xs []any) []vtok {
+	out := make([]vtok, len(xs))
+	for i, x := range xs {
+		out[i] = c.abs(x)
+	}
+	return out
+}
+
+func eqAny(a, b []any) bool {
+	if len(a) != len(b) {
+		return false
+	}
+	for i := range a {
+		if !sameVal(a[i], b[i]) {
+			return false
+		}
+	}
+	return true
+}
+
+// viewEvent runs the real methods on one list and returns the abstracted record.
+func viewEvent(toks []vtok, sortMode string) (rec map[string]any, note string) {
+	c := newVconc("id", 0)
+	vals := make([]any, len(toks))
+	for i, t := range toks {
+		vals[i] = c.val(t)
+	}
+	l := at.NewList(vals...)
+	selv := map[string][]vtok{}
+	// typed slices are the reference; every other typed variant must agree with them
+	slices := map[string][]any{"O": toAnySlice(l.ObjectSlice()), "L": toAnySlice(l.ListSlice()), "str": toAnySlice(l.StringSlice()),
+		"bool": toAnySlice(l.BoolSlice()), "int": toAnySlice(l.IntSlice()), "float": toAnySlice(l.FloatSlice())}
+	variant := func(kind, name string, got []any) {
+		if !eqAny(got, slices[kind]) {
+			slices[kind] = got // TLC will reject it
+			note += fmt.Sprintf("%s disagrees with the %s slice; ", name, kind)
+		}
+	}
+	var log []any
+	rec1 := func(v any) { log = append(log, v) }
+	log = nil
+	l.ForEachObject(func(x at.Object) { rec1(x) })
+	variant("O", "ForEachObject", log)
+	log = nil
+	l.ForEachList(func(x at.List) { rec1(x) })
+	variant("L", "ForEachList", log)
+	log = nil
+	l.ForEachString(func(x string) { rec1(x) })
+	variant("str", "ForEachString", log)
+	log = nil
+	l.ForEachBool(func(x bool) { rec1(x) })
+	variant("bool", "ForEachBool", log)
+	log = nil
+	l.ForEachInt(func(x int) { rec1(x) })
+	variant("int", "ForEachInt", log)
+	log = nil
+	l.ForEachFloat(func(x float64) { rec1(x) })
+	variant("float", "ForEachFloat", log)
+	yes := func() bool { return true }
+	variant("O", "FilterObjects", listContent(l.FilterObjects(func(at.Object) bool { return yes() })))
+	variant("L", "FilterLists", listContent(l.FilterLists(func(at.List) bool { return yes() })))
+	variant("str", "FilterStrings", listContent(l.FilterStrings(func(string) bool { return yes() })))
+	variant("int", "FilterInts", listContent(l.FilterInts(func(int) bool { return yes() })))
+	variant("float", "FilterFloats", listContent(l.FilterFloats(func(float64) bool { return yes() })))
+	variant("O", "MapObjects", listContent(l.MapObjects(func(x at.Object) any { return x })))
+	variant("L", "MapLists", listContent(l.MapLists(func(x at.List) any { return x })))
+	variant("str", "MapStrings", listContent(l.MapStrings(func(x string) any { return x })))
+	variant("bool", "MapBools", listContent(l.MapBools(func(x bool) any { return x })))
+	variant("int", "MapInts", listContent(l.MapInts(func(x int) any { return x })))
+	variant("float", "MapFloats", listContent(l.MapFloats(func(x float64) any { return x })))
+	variant("int", "ReduceInts", l.Reduce([]any{}, func(a, b any) any {
+		if _, ok := b.(int); ok {
+			return append(a.([]any), b)
+		}
+		return a
+	}).([]any))
+	for k, v := range slices {
+		selv[k] = c.absAll(v)
+	}
+	// untyped variants must reproduce the whole list
+	whole := vals
+	for name, got := range map[string][]any{"Filter": listContent(l.Filter(func(any) bool { return true })), "Map": listContent(l.Map(func(_ int, v any) any { return v })),
+		"MapValues": listContent(l.MapValues(func(v any) any { return v })), "Slice": l.Slice(),
+		"Reduce": l.Reduce([]any{}, func(a, b any) any { return append(a.([]any), b) }).([]any)} {
+		if !eqAny(got, whole) {
+			whole = got
+			note += name + " does not reproduce the list; "
+		}
+	}
+	var idx []int
+	l.ForEach(func(i int, _ any) { idx = append(idx, i) })
+	for i, x := range idx {
+		if x != i {
+			note += "ForEach index sequence is wrong; "
+			whole = nil
+			break
+		}
+	}
+	if len(idx) != len(vals) {
+		note += "ForEach call count is wrong; "
+		whole = nil
+	}
+	all := []string{}
+	for k, b := range map[string]bool{"O": l.AllObjects(), "L": l.AllLists(), "str": l.AllStrings(), "bool": l.AllBools(), "int": l.AllInts(), "float": l.AllFloats()} {
+		if b {
+			all = append(all, k)
+		}
+	}
+	agg := map[string]any{"isum": l.IntSum(), "imin": l.IntMin(), "imax": l.IntMax(), "sum4": 0, "min4": 0, "max4": 0}
+	if l.AllNumeric() {
+		agg["sum4"] = int(l.Sum() * 4)
+		agg["min4"] = int(l.Min() * 4)
+		agg["max4"] = int(l.Max() * 4)
+		if l.Sum()*4 != float64(int(l.Sum()*4)) {
+			agg["sum4"] = -999999
+		}
+		if n := l.Count(); n > 0 && l.Avg() != l.Sum()/float64(n) {
+			agg["sum4"] = -999998
+		}
+	}
+	if !eqAny(listContent(l), vals) {
+		note += "the read-only calls changed the list; "
+	}
+	// Reverse / Sort on a second list under the order-only concretisation
+	cs := newVconc(sortMode, 0)
+	svals := make([]any, len(toks))
+	for i, t := range toks {
+		svals[i] = cs.val(t)
+	}
+	ls := at.NewList(svals...)
+	ls.Reverse()
+	rev := cs.absAll(listContent(ls))
+	ls.Reverse()
+	if !eqAny(listContent(ls), svals) {
+		note += "Reverse twice does not restore the list; "
+		rev = nil
+	}
+	sortDomain := len(toks) > 0
+	for _, t := range toks {
+		if t.K != toks[0].K || (t.K != "int" && t.K != "float" && t.K != "str") {
+			sortDomain = false
+		}
+	}
+	var sorted []vtok
+	if sortDomain {
+		ls.Sort()
+		first := cs.absAll(listContent(ls))
+		ls.Sort()
+		if !eqAny(cs2any(first), cs2any(cs.absAll(listContent(ls)))) {
+			note += "Sort twice differs from Sort once; "
+		}
+		sorted = first
+	} else {
+		sorted = []vtok{}
+	}
+	if whole == nil {
+		selv["int"] = []vtok{{"alien", 0}}
+	} else if !eqAny(whole, vals) {
+		selv["int"] = []vtok{{"alien", 1}}
+	}
+	selJSON := map[string][][2]any{}
+	for k, v := range selv {
+		out := make([][2]any, len(v))
+		for i, t := range v {
+			out[i] = [2]any{t.K, t.V}
+		}
+		selJSON[k] = out
+	}
+	return map[string]any{"list": toks, "selv": selJSON, "all": all, "allNumeric": l.AllNumeric(), "rev": rev, "sortDomain": sortDomain, "sorted": sorted, "agg": agg, "note": note}, note
+}
+
+func cs2any(ts []vtok) []any {
+	out := make([]any, len(ts))
+	for i, t := range ts {
+		out[i] = t.K + ":" + fmt.Sprint(t.V)
+	}
+	return out
+}
+
+func cmdViewTrace(args []string) int {
+	fs := flag.NewFlagSet("viewtrace", flag.ExitOnError)
+	out := fs.String("trace", "", "ndjson trace")
+	seed := fs.Int64("seed", 1, "seed")
+	big := fs.Bool("big", false, "also sizes up to 4097")
+	family := fs.String("family", "views", "views|sort|agg: which list shapes are recorded")
+	fs.Parse(args)
+	f, err := os.Create(*out)
+	if err != nil {
+		fmt.Fprintln(os.Stderr, err)
+		return 2
+	}
+	w := bufio.NewWriterSize(f, 1<<20)
+	rng := newRand(*seed)
+	sizes := []int{0, 1, 2, 11, 12, 13, 14, 15, 16, 17, 31, 32, 33, 38, 46, 54, 63, 64, 65, 66, 100, 127, 128, 129, 130, 131, 200, 255, 256, 257, 259, 300, 513, 1025}
+	if *big {
+		sizes = append(sizes, 1023, 1024, 2047, 2048, 2049, 2050, 2051, 2055, 4096, 4097, 4103)
+	}
+	mixed := []vtok{{"nil", 0}, {"bool", 1}, {"int", 1}, {"int", 2}, {"float", 2}, {"str", 1}, {"O", 1}, {"O", 2}, {"L", 1}}
+	ints := []vtok{{"int", -2}, {"int", -1}, {"int", 0}, {"int", 1}, {"int", 2}, {"int", 3}}
+	flts := []vtok{{"float", -6}, {"float", -1}, {"float", 0}, {"float", 2}, {"float", 5}}
+	strs := []vtok{{"str", 1}, {"str", 2}, {"str", 3}, {"str", 4}}
+	nums := append(append([]vtok{}, ints...), flts...)
+	pick := func(alpha []vtok, n int) []vtok {
+		out := make([]vtok, n)
+		for i := range out {
+			out[i] = alpha[rng.Intn(len(alpha))]
+		}
+		return out
+	}
+	events, notes := 0, 0
+	emit := func(toks []vtok, mode string) {
+		rec, note := viewEvent(toks, mode)
+		if note != "" {
+			notes++
+		}
+		b, _ := json.Marshal(rec)
+		w.Write(b)
+		w.WriteByte('\n')
+		events++
+	}
+	for _, n := range sizes {
+		switch *family {
+		case "views":
+			emit(pick(mixed, n), "id")
+			emit(pick(mixed, n), "id")
+			if n >= 2 {
+				tail := pick([]vtok{{"str", 1}, {"nil", 0}, {"bool", 0}}, n)
+				tail[n-1] = vtok{"int", 3}
+				emit(tail, "id")
+				for _, k := range []vtok{{"O", 1}, {"L", 1}, {"float", 2}, {"str", 2}} {
+					one := pick([]vtok{{"int", 1}, {"nil", 0}}, n)
+					one[n-1] = k
+					one[n/2] = k
+					emit(one, "id")
+				}
+			}
+			continue
+		case "agg":
+			emit(pick(nums, n), "id")
+			emit(pick(ints, n), "extremeAgg")
+			emit(pick(flts, n), "id")
+			if n >= 2 {
+				mid := pick(ints, n)
+				mid[n/2] = vtok{"float", 5}
+				emit(mid, "id")
+				ones := make([]vtok, n)
+				for i := range ones {
+					ones[i] = vtok{"int", 1}
+				}
+				emit(ones, "id")
+				tail := pick([]vtok{{"str", 1}, {"nil", 0}, {"bool", 0}}, n)
+				tail[n-1] = vtok{"int", 3}
+				emit(tail, "id")
+			}
+			continue
+		}
+		emit(pick(ints, n), "extremeAgg")
+		emit(pick(ints, n), "big53")
+		emit(pick(flts, n), "id")
+		emit(pick(strs, n), "id")
+		if n >= 2 {
+			// ascending run with a small last element; descending run with a big last element; all equal but the last
+			asc := make([]vtok, n)
+			for i := range asc {
+				asc[i] = vtok{"int", -2 + (i*5)/n}
+			}
+			asc[n-1] = vtok{"int", -2}
+			emit(asc, "id")
+			emit(asc, "big53")
+			desc := make([]vtok, n)
+			for i := range desc {
+				desc[i] = vtok{"int", 3 - (i*5)/n}
+			}
+			desc[n-1] = vtok{"int", 3}
+			emit(desc, "id")
+			eq := make([]vtok, n)
+			for i := range eq {
+				eq[i] = vtok{"float", 2}
+			}
+			eq[n-1] = vtok{"float", -6}
+			emit(eq, "id")
+		}
+	}
+	w.Flush()
+	f.Close()
+	fmt.Printf("{\"events\":%d,\"harness_notes\":%d,\"max_size\":%d}\n", events, notes, sizes[len(sizes)-1])
+	return 0
+}
+
+func init() {
+	extraCmds["viewtrace"] = cmdViewTrace
 }
